@@ -16,11 +16,17 @@ MethodSmall == {M("f1", "root", "shared", "t1", "P_"), M("f2", "root", "shared",
                 N(M("f1", "root", "unset", "none", "P_"), "dup"), N(M("f2", "api", "own", "none", "none"), "dup"), N(M("f3", "api", "unset", "t1", "none"), "dup")}
 Exposed(m) == IF m.name = "own" THEN m.fn ELSE m.name
 DistinctNames(s) == \A i, j \in DOMAIN s : i # j => ~(Exposed(s[i]) = Exposed(s[j]) /\ s[i].ep = s[j].ep)
-S(k, x, p, ms) == [kind |-> k, extractor |-> x, prefix |-> p, methods |-> ms]
+S(k, x, p, ms) == [kind |-> k, extractor |-> x, prefix |-> p, statusmap |-> "none", methods |-> ms]
+SM(s) == [s EXCEPT !.statusmap = "map"]
 InitN(A, n) == \E k \in Kinds : \E x \in Extractors(k), p \in {"none", "rpc"} :
                  \/ \E m1 \in MethodAlpha : InitWith(S(k, x, p, <<m1>>))
                  \/ \E m1 \in A, m2 \in A : DistinctNames(<<m1, m2>>) /\ InitWith(S(k, x, p, <<m1, m2>>))
                  \/ n >= 3 /\ \E m1 \in A, m2 \in A, m3 \in A : DistinctNames(<<m1, m2, m3>>) /\ InitWith(S(k, x, p, <<m1, m2, m3>>))
-InitQuick == InitN(MethodSmall, 2)
-InitThorough == InitN(MethodSmall, 3)
+\* errors mapped to an HTTP status of their own (OpenAPI only)
+InitMap == \E k \in {"openapi31"}, x \in {"pyd"}, p \in {"none", "rpc"} :
+              \/ \E m1 \in MethodSmall : InitWith(SM(S(k, x, p, <<m1>>)))
+              \/ \E m1 \in MethodSmall, m2 \in {M("f3", "root", "own", "t1", "none"), M("f2", "api", "shared", "none", "P_")} :
+                    DistinctNames(<<m1, m2>>) /\ InitWith(SM(S(k, x, p, <<m1, m2>>)))
+InitQuick == InitN(MethodSmall, 2) \/ InitMap
+InitThorough == InitN(MethodSmall, 3) \/ InitMap
 =============================================================================
